@@ -147,6 +147,10 @@ inductive UMethod
   | reduce (axes : Option (List Int)) (keep : Bool)
   | accumulate
   | outer
+  /-- the core-dimension contraction of `matmul` -/
+  | matmul
+  /-- the last-axis contraction of `vecdot` -/
+  | vecdot
 deriving Repr
 
 /-- one ufunc invocation as far as class and shape depend on it -/
@@ -171,9 +175,14 @@ def ufuncOutShape (m : UMethod) (ops : List Shape) : Except SErr Shape :=
     | none => .error .ValueError
     | some r => match broadcast r c with | some r => .ok r | none => .error .ValueError
   | .reduce axes keep, [a] =>
-    if a = [] ∧ axes.isSome ∧ axes != some [] then .error .AxisError else reduceAxes a axes keep
+    -- NumPy lets `axis=0` (the default of `ufunc.reduce`) and `axis=-1` through for a 0-d operand
+    if a = [] then
+      (if axes = none ∨ axes = some [] ∨ axes = some [0] ∨ axes = some [-1] then .ok [] else .error .AxisError)
+    else reduceAxes a axes keep
   | .accumulate, [a] => if a = [] then .error .AxisError else .ok a
   | .outer, [a, b] => .ok (outer a b)
+  | .matmul, [a, b] => match matmulShape a b with | some r => .ok r | none => .error .ValueError
+  | .vecdot, [a, b] => match vecdotShape a b with | some r => .ok r | none => .error .ValueError
   | _, _ => .error .TypeError
 
 /-- the class handed to the wrap-up: `type(self)` for one input, `_get_binary_op_return_class`
